@@ -82,6 +82,7 @@ PROPS = {
         units=['SESSION', 'SENDSPLIT', 'LINK', 'LINKATTACH'], kani=[], level='proof', title='Settlement',
         assumptions=[ASYNC, ENGINE,
             'session::consecutive_chunk_indices and util::is_consecutive are under contract in unit SESSION (rule R34: the windows(2).enumerate().filter_map(..).collect() chain is written as the loop the std adapters perform, closure body verbatim); the agreement probe cci_session_agreement still runs the real function against an independent oracle (bounded)',
+            'ReceiverLink::dispose_all (batch disposal: sort, drop what is no longer unsettled, one disposition per maximal run) and receiver_link::consecutive_chunk_indices are under contract in unit LINK (rule R34; `sort_by_key` / `retain` are stand-ins taking the closures as the code has them); the agreement probe cci_receiver_agreement still runs the real run splitter against an independent oracle (bounded)',
             'in unit SESSION a link is a ghost call log whose echo answer is the contract of LinkRelay::on_incoming_disposition (sender && !settled && rcv-settle-mode second)',
             'DeliveryFut::poll (Pin/poll) and interleaving of dispositions with further sends are not decided',
             'that UnsettledMessage::settle_with_state is actually invoked on the entry removed by LinkRelay::on_incoming_disposition is visible in the extracted text but is not an obligation: a by-value call leaves no ghost trace; what IS proved: the entry removed is the one under the disposition\'s tag, and settle_with_state resolves its own channel with exactly the state given']),
